@@ -200,15 +200,71 @@ func (ec *evalCtx) callWith(call *ast.CallExpr, recv Value, args []Value) Value 
 	return ec.havocCall(call, fn, recv, args, sig)
 }
 
+// pureCallee: callees without contract or model whose result is taken to be a function of the arguments and which
+// modify nothing the caller can see: the value-level standard library (strings, strconv, unicode, bytes functions,
+// path, html, url, fmt.Sprint*, errors, hashes, hex/base64, math, sort.Search*), conversions-like helpers. Everything
+// else - module functions without contract, methods of interfaces without contract, function values, I/O - may
+// return something new on every call and may change whatever it can reach.
+func pureCallee(fn *types.Func) bool {
+	if os.Getenv("GOVC_LAX_HAVOC") != "" {
+		return true
+	}
+	if fn == nil || fn.Pkg() == nil {
+		return false
+	}
+	if strings.HasPrefix(fn.Pkg().Path(), "verifcorpus/") {
+		// functions of the template corpus itself (user code called from template expressions): the properties about
+		// generated code assume user expressions to be deterministic and without effect on the render state
+		return true
+	}
+	sig, _ := fn.Type().(*types.Signature)
+	isMethod := sig != nil && sig.Recv() != nil
+	switch p := fn.Pkg().Path(); p {
+	case "strings", "strconv", "unicode", "unicode/utf8", "unicode/utf16", "path", "path/filepath", "html", "net/url", "errors",
+		"crypto/sha256", "crypto/sha1", "crypto/md5", "encoding/hex", "encoding/base64", "math", "math/bits", "slices", "maps", "cmp", "mime":
+		if isMethod {
+			// methods of value types of these packages (url.URL.String, strings.Replacer.Replace ...) read only
+			_, ptr := sig.Recv().Type().(*types.Pointer)
+			return !ptr || p == "net/url" || p == "strings" && !strings.HasPrefix(fn.FullName(), "(*strings.Builder)")
+		}
+		return true
+	case "bytes":
+		return !isMethod
+	case "fmt":
+		return strings.HasPrefix(fn.Name(), "Sprint") || fn.Name() == "Errorf"
+	case "sort":
+		return strings.HasPrefix(fn.Name(), "Search") || strings.HasSuffix(fn.Name(), "AreSorted")
+	case "time":
+		// Duration / Time arithmetic, formatting and construction; time.Now() and time.Since() are not
+		return isMethod || fn.Name() == "Date" || fn.Name() == "Unix" || fn.Name() == "UnixMilli" || fn.Name() == "ParseDuration"
+	case "reflect":
+		return fn.Name() == "TypeOf" || fn.Name() == "DeepEqual"
+	}
+	return false
+}
+
 // havocCall: result is an uninterpreted function of the argument terms.
 func (ec *evalCtx) havocCall(call *ast.CallExpr, fn *types.Func, recv Value, args []Value, sig *types.Signature) Value {
 	name := exprString(call.Fun)
 	if fn != nil {
 		name = fn.Origin().FullName()
 	}
-	ec.e().havocked[name] = true
 	if sig == nil {
 		panic(unsupported("call of %s without signature", name))
+	}
+	pure := pureCallee(fn)
+	if !pure && fn != nil && ec.e().cs != nil && ec.e().cs.AssumePure[fn.Origin().FullName()] {
+		pure = true
+		ec.e().trusted["assumed pure (deterministic, no effects; assumepure directive): "+fn.Origin().FullName()] = true
+	}
+	if pure {
+		ec.e().havocked[name] = true
+	} else {
+		ec.e().havockedImpure[name] = true
+		// anything reachable through the receiver and the arguments may be changed by the callee
+		ec.argsOnly = true
+		ec.havocReachable(recv, args)
+		ec.argsOnly = false
 	}
 	// a function literal handed to an unknown callee may be run by it: the variables of the enclosing function that
 	// the literal assigns become unknown
@@ -257,6 +313,10 @@ func (ec *evalCtx) havocCall(call *ast.CallExpr, fn *types.Func, recv Value, arg
 	}
 	mkRes := func(i int, t types.Type) Value {
 		hint := fmt.Sprintf("%s.ret%d", stripPkg(name), i)
+		if !pure {
+			// not known to be a function of its arguments: every call gives a new unknown
+			return ec.e().freshValue(ec.st, hint, t, false)
+		}
 		if ok {
 			switch {
 			case isStringLike(t):
@@ -1195,6 +1255,29 @@ func (ec *evalCtx) havocReachable(recv Value, args []Value) {
 	}
 	for i, a := range args {
 		visit(a, fmt.Sprintf("havoc.arg%d", i))
+	}
+	if ec.argsOnly {
+		// a callee without contract: what it was handed may have been written to, read from or changed - the ghost
+		// streams and traces of exactly those values are forgotten (it reports failure through its results only)
+		forget := func(v Value) {
+			func() {
+				defer func() { recover() }()
+				k := writerKey(ec, v)
+				for _, pre := range []string{"out:", "in:", "tr:", "refused:", "hdr:"} {
+					delete(ec.st.ghost, pre+k)
+				}
+			}()
+		}
+		if recv != nil {
+			forget(recv)
+		}
+		for _, a := range args {
+			switch a.(type) {
+			case *IfaceV, *PtrV, *MapV:
+				forget(a)
+			}
+		}
+		return
 	}
 	ec.st.ghost[failedKey] = Or(scalar(ec.failedLval().get()), Var(e.fresher.name("havoc.failed"), SBool))
 	e.fresher.n++
